@@ -234,6 +234,8 @@ class Project(object):
                                        'APP': app.upper(),
                                        'extra': init_extra})
         for label, texts, deps in evolutions:
+            if isinstance(texts, dict):
+                texts = []
             with open(os.path.join(d, 'evolutions', label + '.py'), 'w') as f:
                 f.write(evolution_source(
                     texts, deps,
